@@ -9,6 +9,7 @@ the client-side recorder observed.
 import contextlib
 import io as _io
 import json
+import time
 
 from ..probes import client as pc
 from ..ref import core_packets as ref
@@ -71,7 +72,17 @@ def negotiate(run, rng, sup, order, cfg, sup_all):
              'status_requests': 0}
     kind, val = cfg['behaviour']
 
+    import threading
+    closed_on_accept = threading.Event()
+    delay = cfg.get('reply_delay', 0)
+
     def handler(io):
+        if io.index == 0 and cfg['multi'] and kind == 'close-on-accept':
+            # the server hangs up at once; the client (held back for a moment
+            # by a listener of its own) then fails to *write* its query
+            io.close()
+            closed_on_accept.set()
+            return
         if io.index == 0 and cfg['multi']:
             hs = scripts.read_handshake(io)
             if hs is None:
@@ -85,6 +96,9 @@ def negotiate(run, rng, sup, order, cfg, sup_all):
             state['status_requests'] += 1
             if kind == 'close-before-reply':
                 return
+            if delay:
+                # a slow server: the reply is complete and well-formed, late
+                time.sleep(delay)
             reply = val
             if isinstance(val, dict) and val and rng.random() < 0.5:
                 reply = dict(val, description={'text': 'x' * rng.choice(
@@ -131,6 +145,17 @@ def negotiate(run, rng, sup, order, cfg, sup_all):
         conn.vf_rng = rng
         conn.vf_short_reads = rng.random() < 0.5   # replies arrive in pieces
         decoy = Decoy()
+        if kind == 'close-on-accept' and cfg['multi']:
+            from minecraft.networking.packets import serverbound as _sb
+            held = []
+
+            def hold(_packet):
+                if not held:
+                    held.append(1)
+                    closed_on_accept.wait(5.0)
+                    time.sleep(0.03)
+            conn.register_packet_listener(hold, _sb.handshake.HandShakePacket,
+                                          early=True, outgoing=True)
         try:
             conn.connect()
         except Exception as e:
@@ -139,8 +164,11 @@ def negotiate(run, rng, sup, order, cfg, sup_all):
                               w, error=repr(e)))
             decoy.port.close()
             return None
-        if not pc.wait_idle(conn, 20.0):
+        if not pc.wait_idle(conn, 20.0 + delay):
             return 'threads alive: ' + pc.dump_threads()
+        if delay:
+            run.count('negotiations.with_slow_reply')
+            w['reply_delay_s'] = delay
         decoy.verdict(run, w)
         server.join(10.0)
         if [e for e in server.errors if e[1] == 'frame']:
@@ -175,13 +203,16 @@ def negotiate(run, rng, sup, order, cfg, sup_all):
                     'allowed version the client must log in directly with it')
             expect_login = A[0]
         else:
-            if not hs or hs[0]['next_state'] != 1 or \
+            if kind == 'close-on-accept':
+                run.count('fallback.closed_on_accept_write_failed')
+            elif not hs or hs[0]['next_state'] != 1 or \
                     hs[0]['protocol'] != latest:
                 bad('status/handshake', 'status handshake must carry the '
                     'latest allowed version and next state 1',
                     expected_protocol=latest)
             # decision function
-            if kind in ('close-after-handshake', 'close-before-reply'):
+            if kind in ('close-after-handshake', 'close-before-reply',
+                        'close-on-accept'):
                 expect_login, expect_err = D, None
                 run.count('fallback.closed')
             elif val == {}:
@@ -198,9 +229,13 @@ def negotiate(run, rng, sup, order, cfg, sup_all):
                     run.count('negotiated.server_version')
                 else:
                     expect_login, expect_err = None, ('mismatch', p)
+            # (only a reset met while *reading*: a failed write is followed by
+            # the end of the stream, which is the "closed without replying"
+            # case; BrokenPipeError can only come from a write)
             reset = kind in ('close-after-handshake', 'close-before-reply') \
-                and rec.exceptions and isinstance(rec.exceptions[0], OSError) \
-                and not isinstance(rec.exceptions[0], EOFError) and n_conn == 1
+                and rec.exceptions and isinstance(rec.exceptions[0],
+                                                  ConnectionResetError) \
+                and n_conn == 1
             if reset:
                 # the peer's close arrived as a TCP reset (it had not read the
                 # request yet): a transport error, not "closed without reply"
@@ -439,6 +474,7 @@ def run(run):
                        '(outside the README\'s supported range)']
     rng = run.rng('c09')
     n = 8000 if thorough else 400
+    slow_replies = [6, 12, 31] if thorough else [6]
     for i in range(n):
         if not run.mine(i):
             continue
@@ -464,7 +500,7 @@ def run(run):
         bk = rng.choice(('version', 'version', 'version', 'mismatch-supported',
                          'mismatch-known', 'mismatch-unknown', 'no-version',
                          'no-protocol', 'empty', 'close-before-reply',
-                         'close-after-handshake'))
+                         'close-after-handshake', 'close-on-accept'))
         if bk == 'version':
             band = [p for p in A if p in (384, 385, 386, 387, 388, 389, 390,
                                           391, 706, 707, 338, 340, 47, 107)]
@@ -507,6 +543,11 @@ def run(run):
                'auth': rng.random() < 0.3,
                'host': rng.choice(('127.0.0.1', 'localhost')),
                'multi': len(set(A)) > 1}
+        # a few replies come late (longer than any sensible I/O time-out a
+        # client might be tempted to apply: the reply still decides)
+        if run.shard == 0 and slow_replies and cfg['multi'] and \
+                beh[0] == 'reply':
+            cfg['reply_delay'] = slow_replies.pop(0)
         err = None
         for attempt in range(3):
             err = negotiate(run, rng, sup, order, cfg, sup_all)
@@ -588,3 +629,5 @@ def run(run):
     run.require('negotiations', 15)
     run.require('status_queries', 2)
     run.require('behaviours', 8)
+    run.require('negotiations.with_slow_reply', 1)
+    run.require('fallback.closed_on_accept_write_failed', 2)
